@@ -258,6 +258,10 @@ def rule_pair(ctx):
       probs.append("list `%s` is rebuilt after it was filled (%d bindings): entries of the two lists no longer line up" % (nm, len(binds)))
     muts = [n_ for n_ in ast.walk(b.func.node) if isinstance(n_, ast.Call) and isinstance(n_.func, ast.Attribute) and isinstance(n_.func.value, ast.Name) and n_.func.value.id == nm and
             n_.func.attr in ("pop", "remove", "insert", "sort", "reverse", "append", "extend", "clear")]
+    # filling a fresh list by exactly one append per pass of the loop over the signatures is the element-wise fill spelled differently
+    # (the walker reports such appends as stores at the pass index): those appends do not restructure anything
+    fill_nodes = {id(e.node) for e in b.events if e.kind == "store" and e.data.get("synthetic") and isinstance(e.data["target"].value, ast.Name) and e.data["target"].value.id == nm}
+    muts = [n_ for n_ in muts if not (n_.func.attr == "append" and id(n_) in fill_nodes)]
     if muts:
       probs.append("list `%s` is restructured by .%s()" % (nm, muts[0].func.attr))
   ctx.record(R, b.where(), "(a_i, b_i) of the same signature reach the solver aligned", not probs, "; ".join(sorted(set(probs))) or
